@@ -343,7 +343,7 @@ pub fn write_replay(check: &dyn Check, seed: u64, tier: Tier, tape: Option<&Tape
         "seed": seed,
         "tier": tier.name(),
         "tape": tape.map(|t| t.to_hex()),
-        "decoded": tape.map(|t| check.render(t)),
+        "decoded": tape.map(|t| catch(|| check.render(t)).unwrap_or_else(|p| json!({"render_panicked": p}))),
         "signature": f.signature,
         "mismatch": f.msg,
         "detail": f.detail,
@@ -371,7 +371,9 @@ pub fn replay_file(check: &dyn Check, path: &str) -> i32 {
         eprintln!("replay file has no tape (enumerated-stage failure): re-run the check instead");
         return 2;
     };
-    println!("decoded: {}", serde_json::to_string_pretty(&check.render(&tape)).unwrap());
+    if let Ok(v) = catch(|| check.render(&tape)) {
+        println!("decoded: {}", serde_json::to_string_pretty(&v).unwrap());
+    }
     match run_caught(check, &tape, true) {
         Ok(_) => {
             println!("replay: property held on this tape");
